@@ -106,8 +106,8 @@ impl Check for MigrationCheck {
             let class = if ttl_mode { "str" } else { *rng.pick(&["str", "str", "str", "cnt", "lst"]) };
             let tagged = rng.chance(1, 6);
             let name = if tagged { format!("{{t{}}}k{}", rng.below(4), k) } else { format!("k{}:{}", k, rng.below(100_000)) };
-            // C19: a ttl population (1 ms .. hours) and persistent keys
-            let ttl_ms: u64 = if ttl_mode { *rng.pick(&[0u64, 0, 30, 200, 1500, 5_000, 60_000, 3_600_000]) } else { 0 };
+            // C19: a ttl population (1 ms .. beyond 2^31 and 2^32 ms) and persistent keys
+            let ttl_ms: u64 = if ttl_mode { *rng.pick(&[0u64, 0, 30, 200, 1500, 5_000, 60_000, 3_600_000, 2_592_000_000, 5_000_000_000]) } else { 0 };
             keys.push(json!({"name": name, "class": class, "preload": rng.chance(2, 3), "ttl_ms": ttl_ms}));
         }
         // lock-collision groups: a hot key (many deleting commands -> push-before-delete path) and
